@@ -253,6 +253,7 @@ def run_lines(binary, lines, timeout=3000):
 
 
 SKIPPED = "skipped-time-budget"
+BATCH_CAP = {"cap": None, "per_line": None, "max_hangs": None}     # set by run_check from the property (default: unchanged behaviour)
 
 
 def _run_impl_batch(lines, timeout):
@@ -262,14 +263,20 @@ def _run_impl_batch(lines, timeout):
     res = []
     rest = list(lines)
     t0 = time.time()
-    cap = float(os.environ.get("VERIF_BATCH_TIMEOUT", "300"))
+    # per-attempt cap: `Prop.batch_timeout` (seconds; with `Prop.batch_line_allowance` seconds per line of the batch)
+    # for properties whose cases all run in milliseconds, so that a line that never returns costs seconds, not minutes
+    cap = float(BATCH_CAP["cap"] if BATCH_CAP["cap"] is not None else os.environ.get("VERIF_BATCH_TIMEOUT", "300"))
+    per_line = float(BATCH_CAP["per_line"] if BATCH_CAP["per_line"] is not None else 0.5)
+    if len(lines) == 1 and BATCH_CAP["cap"] is not None:
+        cap = max(1.0, cap / 10)     # a single line (shrinking, replay) of such a property
+    hangs = 0
     while rest:
         left = timeout - (time.time() - t0)
         if left <= 0:
             res.extend([SKIPPED] * len(rest))
             break
         try:
-            rc, out, err = run_lines(RUN, rest, timeout=min(left, max(cap, 0.5 * len(rest))))
+            rc, out, err = run_lines(RUN, rest, timeout=min(left, max(cap, per_line * len(rest))))
         except subprocess.TimeoutExpired as e:
             got = (e.stdout or b"")
             got = got.decode() if isinstance(got, bytes) else got
@@ -280,6 +287,12 @@ def _run_impl_batch(lines, timeout):
             if n < len(rest):
                 res.append("hang")          # the line being executed when time ran out
                 rest = rest[n + 1:]
+                hangs += 1
+                # `Prop.batch_max_hangs`: that many lines of one batch never returned - the rest of the batch is
+                # not executed (and reported as such): further hangs would add minutes, not information
+                if BATCH_CAP["max_hangs"] is not None and hangs >= BATCH_CAP["max_hangs"]:
+                    res.extend([SKIPPED] * len(rest))
+                    break
                 continue
             break
         res.extend(out[:len(rest)])
@@ -547,6 +560,9 @@ def run_check(prop, tier, seed):
     t0 = time.time()
     rng = random.Random(seed * 1000003 + int(hashlib.sha1(prop.id.encode()).hexdigest()[:6], 16))
     findings = load_findings()
+    BATCH_CAP["cap"] = getattr(prop, "batch_timeout", None)
+    BATCH_CAP["per_line"] = getattr(prop, "batch_line_allowance", None)
+    BATCH_CAP["max_hangs"] = getattr(prop, "batch_max_hangs", None)
     broken = []        # names of obligations / correspondences that no longer check
     notes = []
     violations = []    # (replay path, suffix)
@@ -666,6 +682,8 @@ def run_check(prop, tier, seed):
             elif kind == "violation":
                 p = write_replay(prop.id, "extra%d" % len(violations), rep)
                 violations.append((p, ""))
+            elif kind == "known":      # a listed finding reproduced by a probe of `extra`: (finding, its case line)
+                known.append((rep, msg))
             else:
                 notes.append(msg)
 
